@@ -53,6 +53,16 @@ impl FangsList {
             self.add(id, fangs)
         }
     }
+    /// put the fangs of the surrounding node outside of the ones only `self` has
+    pub(super) fn inherit(&mut self, outer: &Self) {
+        self.0.retain(|(id, _)| !outer.0.iter().any(|(outer_id, _)| outer_id == id));
+        self.0.extend(outer.0.iter().cloned());
+    }
+    /// whether both lists hold the same fangs in the same order
+    pub(super) fn is_same_as(&self, another: &Self) -> bool {
+        self.0.len() == another.0.len()
+        && self.0.iter().zip(&another.0).all(|((a, _), (b, _))| a == b)
+    }
 
     /// yield from most inner fangs
     fn into_iter(self) -> impl Iterator<Item = Arc<dyn Fangs>> {
